@@ -374,7 +374,10 @@ def j2(rep, src, impls):
         if not ok:
             rep.violation("J2", "Base::%s@return" % nm, "%s does not return self.%s(<its argument>, ..): %s" % (nm, callee, show(t, 80)), f.where())
         for r in find(f.body, "return"):
-            rep.violation("J2", "Base::%s@return" % nm, "%s has an early `return`" % nm, "src/%s:%d" % (IJ, r["l"]))
+            rv = r.get("e")
+            if rv is not None and rv["k"] == "call" and path_of(rv["f"]) == "Err":
+                continue  # an early refusal: no value leaves without the guard
+            rep.violation("J2", "Base::%s@return" % nm, "%s has an early `return` of a value that does not go through self.%s" % (nm, callee), "src/%s:%d" % (IJ, r["l"]))
     # (a) / (d)
     n = 0
     for ty, fns in impls.items():
